@@ -95,8 +95,9 @@ namespace detail
 			return value;
 
 		genIUType const prev = static_cast<genIUType>(1) << findMSB(value);
-		genIUType const next = prev << static_cast<genIUType>(1);
-		return (next - value) < (value - prev) ? next : prev;
+		genIUType const lower = static_cast<genIUType>(value - prev);
+		genIUType const upper = static_cast<genIUType>(prev - lower);
+		return upper < lower ? static_cast<genIUType>(prev << static_cast<genIUType>(1)) : prev;
 	}
 
 	template<length_t L, typename T, qualifier Q>
